@@ -119,30 +119,43 @@ theorem Z_Tsection_sound (Z1 Z2 Z3 Z0 : K) (p : Port K) :
   · rintro ⟨vm, h1, h3, h4⟩; constructor <;> grind
   · rintro ⟨h1, h3⟩; exact ⟨Z2 * (I1 + I2), by grind, by grind, rfl⟩
 
-/- FULL STATEMENTS (fail, finding C07-e: `BMatrix.Lsection` / `BMatrix.Tsection` have the diagonal
-   entries exchanged -- they are the matrices of the section seen from port 2):
-   theorem B_Lsection_sound : LNet Z1 Z2 p ↔ rel .B (B_Lsection Z1 Z2) Z0 p
-   theorem B_Tsection_sound : TNet Z1 Z2 Z3 p ↔ rel .B (B_Tsection Z1 Z2 Z3) Z0 p
-   theorem B_Lsection_chain : B_Lsection Z1 Z2 = B_chain (B_Zseries Z1) (B_Zshunt Z2)               -/
-/-- what holds on the current tree: the closed forms are the chains in the OPPOSITE order (the
-    mirrored sections).  Stated as "right chain ∨ mirrored chain" and proved by whichever branch the
-    regenerated definition satisfies (so the obligation survives the repair of finding C07-e); the
-    oracle (`BMatrix-section-mirrored`, judged by `LNet` ports) decides which on the real code. -/
-theorem B_Lsection_chain_partial (Z1 Z2 : K) :
-    B_Lsection Z1 Z2 = B_chain (B_Zseries Z1) (B_Zshunt Z2) ∨
-    B_Lsection Z1 Z2 = B_chain (B_Zshunt Z2) (B_Zseries Z1) := by
-  first
-    | left; simp only [B_Lsection, B_chain, B_Zshunt, B_Zseries, M2.mul, M2.mk.injEq]; refine ⟨?_, ?_, ?_, ?_⟩ <;> ring1
-    | right; simp only [B_Lsection, B_chain, B_Zshunt, B_Zseries, M2.mul, M2.mk.injEq]; refine ⟨?_, ?_, ?_, ?_⟩ <;> ring1
+/-- **B_Lsection_chain / B_Tsection_chain**: the closed forms of `BMatrix.Lsection/Tsection` equal
+    the chains of the generated series / shunt B matrices (their commented-out bodies).
+    (False before the repair of finding C07-e, when B11 and B22 were exchanged.) -/
+theorem B_Lsection_chain (Z1 Z2 : K) :
+    B_Lsection Z1 Z2 = B_chain (B_Zseries Z1) (B_Zshunt Z2) := by
+  simp only [B_Lsection, B_chain, B_Zshunt, B_Zseries, M2.mul, M2.mk.injEq]
+  refine ⟨?_, ?_, ?_, ?_⟩ <;> ring
 
-theorem B_Tsection_chain_partial (Z1 Z2 Z3 : K) :
-    B_Tsection Z1 Z2 Z3 = B_chain (B_chain (B_Zseries Z1) (B_Zshunt Z2)) (B_Zseries Z3) ∨
-    B_Tsection Z1 Z2 Z3 = B_chain (B_Zseries Z3) (B_chain (B_Zshunt Z2) (B_Zseries Z1)) := by
-  first
-    | left; simp only [B_Tsection, B_chain, B_Zshunt, B_Zseries, M2.mul, M2.mk.injEq]; refine ⟨?_, ?_, ?_, ?_⟩ <;> ring1
-    | right; simp only [B_Tsection, B_chain, B_Zshunt, B_Zseries, M2.mul, M2.mk.injEq]; refine ⟨?_, ?_, ?_, ?_⟩ <;> ring1
+theorem B_Tsection_chain (Z1 Z2 Z3 : K) :
+    B_Tsection Z1 Z2 Z3 = B_chain (B_chain (B_Zseries Z1) (B_Zshunt Z2)) (B_Zseries Z3) := by
+  simp only [B_Tsection, B_Lsection, B_chain, B_Zshunt, B_Zseries, M2.mul, M2.mk.injEq]
+  refine ⟨?_, ?_, ?_, ?_⟩ <;> ring
 
-/-- the mirrored chain describes the L network seen from port 2 -/
+/-- **B_Lsection_sound / B_Tsection_sound / B_Pisection_sound**: they describe the physical networks -/
+theorem B_Lsection_sound (Z1 Z2 Z0 : K) (h2 : Z2 ≠ 0) (p : Port K) :
+    LNet Z1 Z2 p ↔ rel .B (B_Lsection Z1 Z2) Z0 p := by
+  obtain ⟨V1, I1, V2, I2⟩ := p
+  simp only [LNet, rel, lin, B_Lsection]
+  constructor <;> (rintro ⟨e1, e2⟩; constructor <;> grind)
+
+theorem B_Tsection_sound (Z1 Z2 Z3 Z0 : K) (h2 : Z2 ≠ 0) (p : Port K) :
+    TNet Z1 Z2 Z3 p ↔ rel .B (B_Tsection Z1 Z2 Z3) Z0 p := by
+  obtain ⟨V1, I1, V2, I2⟩ := p
+  simp only [TNet, rel, lin, B_Tsection, B_Lsection, B_chain, B_Zseries, M2.mul]
+  constructor
+  · rintro ⟨vm, e1, e3, e4⟩; constructor <;> grind
+  · rintro ⟨e1, e3⟩; exact ⟨V1 - Z1 * I1, by grind, by grind, by grind⟩
+
+theorem B_Pisection_sound (Z1 Z2 Z3 Z0 : K) (h1 : Z1 ≠ 0) (h3 : Z3 ≠ 0) (p : Port K) :
+    PiNet Z1 Z2 Z3 p ↔ rel .B (B_Pisection Z1 Z2 Z3) Z0 p := by
+  obtain ⟨V1, I1, V2, I2⟩ := p
+  simp only [PiNet, rel, lin, B_Pisection, B_Lsection, B_chain, B_Zshunt, M2.mul]
+  constructor
+  · rintro ⟨is, e1, e2, e3⟩; constructor <;> grind
+  · rintro ⟨e1, e2⟩; exact ⟨I1 - V1 / Z1, by grind, by grind, by grind⟩
+
+/-- the mirrored chain (what the closed form used to be) describes the L network seen from port 2 -/
 theorem B_chain_mirrored_Lsection_sound (Z1 Z2 Z0 : K) (h2 : Z2 ≠ 0) (p : Port K) :
     LNet Z1 Z2 (mirror p) ↔ rel .B (B_chain (B_Zshunt Z2) (B_Zseries Z1)) Z0 p := by
   obtain ⟨V1, I1, V2, I2⟩ := p
@@ -165,8 +178,7 @@ theorem B_chain_Tsection_sound (Z1 Z2 Z3 Z0 : K) (h2 : Z2 ≠ 0) (p : Port K) :
   · rintro ⟨vm, e1, e3, e4⟩; constructor <;> grind
   · rintro ⟨e1, e3⟩; exact ⟨V1 - Z1 * I1, by grind, by grind, by grind⟩
 
-/-- `BMatrix.Pisection` is a chain through `B_Lsection`, hence inherits the defect; its A
-    counterpart is right (above).  What the class `PiSection` builds is right: -/
+/-- what the class `PiSection` builds (chain of `Shunt`, `Series`, `Shunt`): -/
 theorem PiSection_sound (op1 op2 op3 : OneP K) (Z0 : K) (p : Port K) :
     PiNetY op1.Y op2.Z op3.Y p ↔ rel .B (TP_PiSection op1 op2 op3).B Z0 p := by
   obtain ⟨V1, I1, V2, I2⟩ := p
